@@ -204,7 +204,7 @@ Array<String> Directory::roots()
 bool Directory::createOne(const String& name)
 {
 	bool ok = CreateDirectory(name, 0) != 0;
-	return ok || (GetLastError() == ERROR_ALREADY_EXISTS); // if it exists we don't consider that an error
+	return ok || (GetLastError() == ERROR_ALREADY_EXISTS && File(name).isDirectory()); // if it exists (as a directory) we don't consider that an error
 }
 
 String Directory::current()
@@ -333,7 +333,7 @@ Array<String> Directory::roots()
 bool Directory::createOne(const String& name)
 {
 	int a = mkdir(name, 0777);
-	return a == 0 || (a < 0 && errno == EEXIST);
+	return a == 0 || (a < 0 && errno == EEXIST && File(name).isDirectory()); // an existing directory is fine, a file in the way is not
 }
 
 String Directory::current()
